@@ -35,6 +35,8 @@ func Main(prop string) {
 	switch os.Args[1] {
 	case "worker":
 		RunWorker(os.Args[2], os.Args[3])
+	case "stdinlint":
+		StdinLintMain()
 	case "helpers":
 		RunHelpers(prop, os.Args[2], os.Args[3])
 	case "propagation":
@@ -43,7 +45,7 @@ func Main(prop string) {
 		// "large": only the large single-call batches (run with a harness built with -race in the thorough tier)
 		out, tier, repo, opa, cdir, tmp := os.Args[2], os.Args[3], os.Args[4], os.Args[5], os.Args[6], os.Args[7]
 		r := hutil.NewRng(hutil.SeedFromEnv())
-		plan := Plan{Tier: tier, Repo: repo, OPADir: opa, CorpusDir: cdir, BatchSize: 96, Stress: 1}
+		plan := Plan{Tier: tier, Repo: repo, OPADir: opa, CorpusDir: cdir, BatchSize: 96, Stress: 1, BoundaryThird: -1}
 		job := &Job{Timeout: 240, Detail: 3, Locate: locate, Par: 4}
 		switch {
 		case tier == "quick" && !locate:
@@ -65,6 +67,19 @@ func Main(prop string) {
 			plan.QuotedSample = 1500
 		}
 		if locate {
+			// quick: per batch two of the four shifts through disk / map (rotating with the batch), 2 modules through stdin
+			plan.Modes, plan.ModesStdin, plan.ModesKs = true, 2, 2
+			plan.BoundaryThird = int(hutil.SeedFromEnv() % 3)
+			if tier != "quick" {
+				plan.BoundaryThird, plan.BoundarySample, plan.ModesStdin, plan.ModesKs = -1, 1200, 4, 2
+			}
+		} else if tier == "quick" {
+			plan.DiskPerRoot, plan.DiskRounds = 450, 150
+		} else {
+			plan.BoundarySample = 6000
+			plan.DiskPerRoot, plan.DiskRounds = 600, 400
+		}
+		if locate {
 			job.Shifts = []int{1, 3, 10, 100}
 		} else if tier == "quick" {
 			// large single-call runs: 2 batches of 1200 small files in one Lint call each: every rule + 2 rule subsets, 3 rule subsets
@@ -76,6 +91,7 @@ func Main(prop string) {
 			plan.LargeOnly = true
 			// under the race detector an evaluation is several times slower, and a report does not need a collision in time
 			plan.Large, plan.LargeSize, plan.LargeSets, plan.LargeRounds = 2, 1000, 3, 1
+			plan.DiskRounds = 25
 		}
 		watchdog := 10 * time.Minute
 		if tier == "quick" {
@@ -111,7 +127,13 @@ func Main(prop string) {
 			if o.Rounds < 3 {
 				o.Rounds = 3 // an interleaving that showed once may need a few attempts to show again
 			}
+			if o.Disk && o.DiskRounds < 300 {
+				o.DiskRounds = 300
+			}
 			job.Opts = []BatchOpt{o}
+		}
+		if rf.Opt != nil && locate && rf.Opt.Modes {
+			job.Opts = []BatchOpt{{Modes: true, ModesStdin: len(rf.Modules), Shifts: rf.Opt.Shifts}}
 		}
 		if locate {
 			job.Shifts = []int{1, 3, 10, 100}
